@@ -299,3 +299,57 @@ func verifC10_pipelined() {
 	c.CloseNow()
 	vObserve("pipelined", t.first, len(b1), err2 == nil)
 }
+
+// C10.pong-queued: a Read has to answer a Ping while another goroutine's Write holds the frame lock (stuck in the
+// transport): the Pong waits for the lock under the Read's context. When that context is cancelled the Read returns
+// promptly with an error (and does not get entangled in the locks it holds itself).
+func verifC10_pong_queued() {
+	client := vParam("client", 1) == 1
+	vInstallRand()
+	mk := func(f vFrame) vFrame {
+		f.masked = !client
+		if f.masked {
+			copy(f.key[:], vBytes("key", 4))
+		}
+		return f
+	}
+	t := vNewTransport(nil)
+	t.endMode = vEndBlock
+	t.holdAt = 1
+	c := vNewConn(t, client, nil, 32, 64)
+	wdone := make(chan error, 1)
+	go func() { wdone <- c.Write(vBG, MessageBinary, vBytes("w", 2)) }()
+	vGhostSettle()
+	ctx, cancel := context.WithCancel(vBG)
+	rdone := make(chan error, 1)
+	go func() {
+		_, _, err := c.Read(ctx)
+		rdone <- err
+	}()
+	vGhostSettle()
+	t.vFeed(vEncodeFrame(mk(vFrame{fin: true, opcode: 9, payload: vBytes("p", 1)})))
+	vGhostSettle() // the Read is waiting for the frame lock to write its Pong
+	start := vGhostElapsed()
+	cancel()
+	select {
+	case err := <-rdone:
+		vAssert(err != nil, "C10.cancel.call-fails")
+	case <-time.After(10 * time.Second):
+		vAssert(false, "C10.cancel.returns-promptly")
+	}
+	vReach("C10.pong-queued.read-returned")
+	vAssert(vGhostElapsed()-start < time.Second+vSlack(), "C10.cancel.returns-promptly")
+	close(t.release)
+	done := make(chan struct{})
+	go func() {
+		c.CloseNow()
+		close(done)
+	}()
+	select {
+	case <-done:
+	case <-time.After(20 * time.Second):
+		vAssert(false, "C09.closenow.returns")
+	}
+	<-wdone
+	vObserve("c10pongqueued", 0)
+}
